@@ -38,6 +38,7 @@ var (
 	objectPrefix             = "_o_"
 	objectSuffix             = "_e_"
 	tagPrefix                = "+"
+	tagValuePrefix           = "="
 	userTypeHashPrefix       = "!"
 	userTypeRecursivePrefix  = "^"
 	userTypePrefix           = "_t_"
@@ -107,9 +108,9 @@ func hashUnion(u *Union, ignoreFields, ignoreNames, ignoreTags bool, seen *hashS
 	sort.Slice(sorted, func(i, j int) bool {
 		return sorted[i].Name < sorted[j].Name
 	})
-	h := unionTypePrefix + u.TypeName
+	h := unionTypePrefix + hashName(u.TypeName)
 	for _, nat := range sorted {
-		h += unionAttributePrefix + nat.Name + unionAttributeTypePrefix + hashChild(nat.Attribute.Type, ignoreFields, ignoreNames, ignoreTags, seen)
+		h += unionAttributePrefix + hashName(nat.Name) + unionAttributeTypePrefix + hashChild(nat.Attribute.Type, ignoreFields, ignoreNames, ignoreTags, seen)
 	}
 	return &h
 }
@@ -117,7 +118,7 @@ func hashUnion(u *Union, ignoreFields, ignoreNames, ignoreTags bool, seen *hashS
 func hashUserType(ut UserType, ignoreFields, ignoreNames, ignoreTags bool, seen *hashSeen) *string {
 	h := userTypePrefix
 	if !ignoreNames || ignoreFields {
-		h += ut.Name()
+		h += hashName(ut.Name())
 	}
 	if ignoreFields {
 		return &h
@@ -151,7 +152,7 @@ func hashObject(o *Object, ignoreFields, ignoreNames, ignoreTags bool, seen *has
 	ph := &h
 	seen.objects[o] = ph
 	for _, a := range sorted(o) {
-		*ph += attributePrefix + a.Name +
+		*ph += attributePrefix + hashName(a.Name) +
 			attributeTypePrefix + hashChild(a.Attribute.Type, ignoreFields, ignoreNames, ignoreTags, seen)
 		if !ignoreTags {
 			*ph += hashTags(a.Attribute.Meta)
@@ -173,9 +174,24 @@ func hashTags(m MetaExpr) string {
 	sort.Strings(keys)
 	var h string
 	for _, k := range keys {
-		h += fmt.Sprintf("%s%s%s", tagPrefix, k, m[k])
+		h += tagPrefix + hashName(k)
+		for _, v := range m[k] {
+			h += tagValuePrefix + hashName(v)
+		}
 	}
 	return h
+}
+
+// hashNameEscaper escapes the characters the hash uses as delimiters.
+var hashNameEscaper = strings.NewReplacer(
+	`\`, `\\`, "-", `\-`, "/", `\/`, ":", `\:`, "+", `\+`, "=", `\=`, "!", `\!`, "^", `\^`, "_", `\_`,
+)
+
+// hashName returns the given attribute, type or tag name in a form that cannot
+// be mistaken for the structure of the hash: two types whose names happen to
+// contain the delimiters used by the hash must not end up with the same hash.
+func hashName(n string) string {
+	return hashNameEscaper.Replace(n)
 }
 
 func sorted(o *Object) Object {
